@@ -37,7 +37,7 @@ func runOnce(param json.RawMessage, ctx *explore.Ctx, viols *[]xrun.Viol) string
 	_ = json.Unmarshal(param, &cfg)
 	res := loopworld.Run(cfg, ctx)
 	for _, v := range res.Viols {
-		if strings.HasPrefix(v.Sig, "c03:") || strings.HasPrefix(v.Sig, "c09:") || strings.HasPrefix(v.Sig, "c10:") {
+		if !loopworld.Judged(v.Sig, "c16") {
 			continue
 		}
 		*viols = append(*viols, xrun.Viol{Sig: v.Sig, Msg: v.Msg})
@@ -115,6 +115,15 @@ func main() {
 		}
 		xrun.Explore(r, name, xrun.Opts{Kind: "once", Bound: bound, Budget: 30, Recycle: 4,
 			Param: loopworld.Cfg{Native: native, OnlyOnce: true, LoadFaults: true, LoopFirst: true, MaxVisits: 1, AppOps: []string{"put-b"}}})
+		// a fresh instance (empty LMDB, no snapshot of its own) facing a bucket whose only / newest blob of the other
+		// instance is undecodable: the run must still end by itself
+		for _, corrupt := range []string{"only", "newest"} {
+			if r.Expired() {
+				continue
+			}
+			xrun.Explore(r, name+"-fresh-corrupt-"+corrupt, xrun.Opts{Kind: "once", Bound: ev.Pick(r, 1, 2), Budget: 30, Recycle: 4,
+				Param: loopworld.Cfg{Native: native, OnlyOnce: true, EmptyStart: true, Corrupt: corrupt, LoadFaults: true, MaxVisits: 1, AppOps: []string{"put-b"}}})
+		}
 	}
 	r.Finish()
 }
